@@ -724,7 +724,7 @@ fn random_call(rng: &mut Rng, w: &World, policy: &Policy) -> Value {
                 }
             }
             if !sel.is_empty() {
-                return json!({"a": "PoSt", "m": m, "c": "worker", "dl": cur, "parts": sel, "badProof": rng.chance(10)});
+                return json!({"a": "PoSt", "m": m, "c": "worker", "dl": cur, "parts": sel, "badProof": rng.chance(18)});
             }
         }
     }
@@ -851,10 +851,12 @@ fn random_call(rng: &mut Rng, w: &World, policy: &Policy) -> Value {
         return json!({"a": "ReportFault", "m": m, "age": *rng.pick(&[1, 1, 2, 0, 5]), "proven": rng.chance(90),
                       "failSend": rng.chance(30), "target": if rng.chance(92) { m.clone() } else { "m1".to_string() }});
     }
-    if (93..95).contains(&k) {
+    // a dispute opportunity: an invalid proof of this miner was accepted optimistically and its deadline has closed
+    let aimed = w.bad_posts.borrow().iter().any(|(bm, bd)| *bm == m && *bd as i64 != cur) && rng.chance(50);
+    if aimed || (93..95).contains(&k) {
         // mostly aimed at a deadline for which an invalid proof was accepted optimistically
-        let cands: Vec<(String, u64)> = w.bad_posts.borrow().clone();
-        if !cands.is_empty() && rng.chance(80) {
+        let cands: Vec<(String, u64)> = w.bad_posts.borrow().iter().filter(|(bm, _)| !aimed || *bm == m).cloned().collect();
+        if !cands.is_empty() && (aimed || rng.chance(80)) {
             let (bm, bd) = rng.pick(&cands).clone();
             // now and then a sector of the disputed deadline loses its power first (declared faulty or
             // terminated between the proof and the dispute)
@@ -866,6 +868,9 @@ fn random_call(rng: &mut Rng, w: &World, policy: &Policy) -> Value {
                         return json!({"a": a, "m": m, "c": who, "decls": [{"dl": p.0, "p": p.1, "s": vec![live[0]]}]});
                     }
                 }
+            }
+            if rng.chance(50) {
+                w.bad_posts.borrow_mut().retain(|(x, y)| !(*x == bm && *y == bd));   // give up on it after a try or two
             }
             return json!({"a": "Dispute", "m": bm, "dl": bd, "idx": if rng.chance(85) { 0 } else { 1 }, "failSend": rng.chance(35)});
         }
